@@ -9,7 +9,7 @@ import json, os, shutil, subprocess, sys, time
 ENV = dict(os.environ, GOFLAGS="-mod=mod", GOPROXY="off", GOSUMDB="off", GOTOOLCHAIN="local", GOCACHE="/verif/.build/gocache")
 
 def sh(cmd, cwd=None, timeout=3600):
-    r = subprocess.run(cmd, shell=True, cwd=cwd, env=ENV, capture_output=True, text=True, timeout=timeout)
+    r = subprocess.run(cmd, shell=True, cwd=cwd, env=ENV, capture_output=True, text=True, errors="replace", timeout=timeout)
     return r.returncode, (r.stdout + r.stderr)
 
 def main():
